@@ -384,19 +384,94 @@ def check_reattach_wakes_deferred(ctx, consequence: str):
     ctx.check(ok, "step.STEP_SCHEMA", "reattaching a node clears `deferred` of its consumers", consequence, "trigger on node.detached 1 -> 0", where="trigger " + (", ".join(t.name for t in trigs) or "(none)"))
 
 
-def check_recreated_step_clean_slate(ctx, consequence: str):
-    """A step row that is recreated (partial recycle in Trellis.create) loses the edges of its former declaration in
-    both directions: inputs in Trellis.create, outputs in Step.initialize_row."""
-    import re
+def check_can_recycle_counts_own_outputs(ctx, consequence: str):
+    """The partial recycle in Trellis.create cuts the input edges of a recreated step but keeps its output edges (an
+    example of the repository relies on that).  An edge to an output that the step no longer creates must therefore
+    not count as part of its declaration when can_recycle compares the stored outputs with the new ones."""
+    cr = ctx.prog.func("step.Step.can_recycle")
+    own = set()
+    for a in ast.walk(cr.node):
+        if isinstance(a, ast.Assign) and len(a.targets) == 1 and isinstance(a.targets[0], ast.Name):
+            calls = [c for c in ast.walk(a.value) if isinstance(c, ast.Call) and isinstance(c.func, ast.Attribute) and ast.unparse(c.func.value) == "self"]
+            if any((callee_name(c) == "_paths" and c.args and isinstance(c.args[0], ast.Constant) and c.args[0].value == "product") or callee_name(c) == "products" for c in calls):
+                own.add(a.targets[0].id)
+    for getter in ("out_paths", "vol_paths"):
+        ok = False
+        for g in ast.walk(cr.node):
+            if isinstance(g, (ast.GeneratorExp, ast.ListComp)) and any(isinstance(c, ast.Call) and callee_name(c) == getter for c in ast.walk(g.generators[0].iter)):
+                conds = [ast.unparse(x) for x in g.generators[0].ifs]
+                ok = ok or any(any(n in c.split(" in ")[-1] for n in own) and " in " in c for c in conds)
+        ctx.check(ok, cr.fq, f"stored {getter} are counted only when this step still creates them", consequence, "filtered by the step's own products", where=ctx.where_of(cr))
 
-    cr = ctx.prog.func("trellis.Trellis.create")
-    ctx.check(any(callee_name(c) == "del_all_sources" for c in calls_in(cr.node)), cr.fq, "the recycle branch cuts the input edges of the recreated node", "old input edges survive a re-creation", "del_all_sources")
-    ir = ctx.prog.func("step.Step.initialize_row")
-    # the cut may be inline or through a Node helper that deletes `dependency WHERE source = <self>`
-    cands = [ir] + [h for h in (ctx.prog.cls("trellis.Node").methods.get(callee_name(c)) for c in calls_in(ir.node) if isinstance(c.func, ast.Attribute) and ast.unparse(c.func.value) == "self") if h is not None]
-    ok = False
-    for fi in cands:
-        for st in ctx.sql.stmts_in(fi.fq):
-            if st.kind == "DELETE" and any(w[1] == "dependency" for w in st.writes) and re.search(r"WHERE source = (\?|:\w+)\s*$", re.sub(r"\s+", " ", st.text).strip()):
-                ok = True
-    ctx.check(ok, ir.fq, "a recreated step starts without output edges (they are declared anew)", consequence, "DELETE FROM dependency WHERE source = :node", where=ctx.where_of(ir))
+
+def file_change_tables(ctx):
+    """Which (detached, state) pairs of an existing file node are examined for content changes:
+    R by the startup rescan, W by the watcher for a single path, P by the watcher for a removed directory.
+    (attached, UNDECLARED) cannot exist (trigger file_check_undeclared_detached_*) and is left out."""
+    import re
+    from ..engine.sqlfront import all_where_clauses, split_conjuncts
+
+    FS = ctx.prog.enum("FileState")
+    pairs = [(d, s) for d in (False, True) for s in FS if not (s == FS.UNDECLARED and not d)]
+    # R: startup.rescan_files
+    excl, texts = set(), []
+    for st_ in ctx.sql.census.sites_in("startup.rescan_files"):
+        for p in st_.params:
+            if isinstance(p, tuple):
+                excl |= {x for x in p if isinstance(x, int)}
+        texts.extend(st_.full_texts())
+    if not texts:
+        raise AnalysisError("startup.rescan_files: selection not found")
+    r_attached_only = any(re.search(r"\bNOT\s+(node\s*\.\s*)?detached\b", t) for t in texts)
+    R = {(d, s) for d, s in pairs if s.value not in excl and not (d and r_attached_only)}
+    # W: Workflow.change_is_relevant, outside a build phase
+    cr = ctx.prog.func("workflow.Workflow.change_is_relevant")
+    W = set()
+    for d, s in pairs:
+        ov = {"self.find_and_detached(File, path)": (object(), d), "file.get_state()": s,
+              "self.find_attached(File, path)": (None if d else object()), "self.find(File, path)": object()}
+        vals = finite.return_values(ctx.prog, cr, {"during_build": False}, ov)
+        if vals and all(v is True for v in vals):
+            W.add((d, s))
+    # P: Workflow.relevant_paths_under
+    rp = ctx.prog.func("workflow.Workflow.relevant_paths_under")
+    P = None
+    rel = ", ".join(str(m.value) for m in sorted(ctx.prog.fold("workflow", "_RELEVANT_STATES"), key=lambda m: m.value))
+    for st_ in ctx.sql.stmts_in(rp.fq):
+        if st_.kind != "SELECT" or "file" not in st_.text:
+            continue
+        for wh in all_where_clauses(st_.text):
+            preds = [c for c in split_conjuncts(wh) if re.search(r"\b(state|detached)\b", c)]
+            if not preds:
+                continue
+            # the state list is `_relevant_states(during_build)`; outside a build phase that is _RELEVANT_STATES
+            preds = [re.sub(r"⟦[^⟧]*⟧", rel, c) for c in preds]
+            tt = ctx.cat.truth_table(" AND ".join(f"({c})" for c in preds), {("file.state", "file . state", "state"): [m.value for m in FS], ("node.detached", "node . detached", "detached"): [0, 1]})
+            got = {(bool(dv), FS(sv)) for (sv, dv), ok in tt.items() if ok}
+            P = got if P is None else (P & got)
+    if P is None:
+        raise AnalysisError("relevant_paths_under: state selection not found")
+    P = {x for x in P if x in set(pairs)}
+    return pairs, R, W, P
+
+
+def check_file_change_filters_agree(ctx, consequence: str):
+    pairs, R, W, P = file_change_tables(ctx)
+    fmt = lambda xs: sorted(("detached " if d else "") + s.name for d, s in xs)  # noqa: E731
+    ctx.check(R == W, "workflow.Workflow.change_is_relevant", "the watcher finds a path relevant exactly when the startup rescan would examine its node",
+              f"restart only: {fmt(R - W)}; watcher only: {fmt(W - R)}: {consequence}", f"{len(pairs)} (detached, state) points")
+    ctx.check(P == W, "workflow.Workflow.relevant_paths_under", "a removed directory selects the same nodes as single-path relevance",
+              f"directory only: {fmt(P - W)}; single path only: {fmt(W - P)}: {consequence}", f"{len(pairs)} points")
+    return R
+
+
+def check_changes_reach_detached_files(ctx, consequence: str):
+    """A detached file node can be recycled with its state and hash (and with the steps that consumed it), so the
+    content checks cover detached nodes in every state that has recorded content."""
+    pairs, R, W, P = file_change_tables(ctx)
+    FS = ctx.prog.enum("FileState")
+    need = {(True, s) for s in FS if s in (FS.BUILT, FS.OUTDATED, FS.CONFIRMED, FS.MISSING)}
+    for name, tab, site in (("startup rescan", R, "startup.rescan_files"), ("watcher (single path)", W, "workflow.Workflow.change_is_relevant"), ("watcher (removed directory)", P, "workflow.Workflow.relevant_paths_under")):
+        missing = sorted(s.name for d, s in need - tab)
+        ctx.check(not missing, site, f"{name} covers detached nodes with recorded content", f"detached nodes in state {missing} are not examined: {consequence}", "BUILT/OUTDATED/CONFIRMED/MISSING, detached included")
+
